@@ -104,6 +104,11 @@ def make_id(kind, i):
         return i            # list positions as ids: 0 is an id like any other
     if kind == 'falsy':
         return ('', 0, 1.5, 'x', 7, 'y', 8, 'z', 9)[i]
+    if kind == 'ws':
+        # ids with white space at their edges (and one that differs from
+        # another only by it): an id is an id
+        return (' n%d', 'n%d ', '\xa0n%d', 'n%d\t', '\u3000n%d\n', 'n %d',
+                '\x0bn%d\x1f', ' n%d ', 'n%d')[i % 9] % (i // 2)
     if kind == 'short':
         return 'n%d' % i
     if kind == 'long':
@@ -655,6 +660,7 @@ def cases(tier):
         if nodes <= 6:
             # ids that are numbers, among them 0 (list positions), and ''
             yield {'fam': 'click', 'shape': sh, 'ids': 'int', 'literal': 3}
+            yield {'fam': 'click', 'shape': sh, 'ids': 'ws', 'literal': 3}
             yield {'fam': 'click', 'shape': sh, 'ids': 'falsy', 'literal': 3}
         if nodes <= maxnodes:
             # node ids that are unique among siblings only (from 7 nodes on
